@@ -89,6 +89,33 @@ Definition enc_result_ (r : result_) : list N :=
   | ROutOfFuel => [4]
   end.
 
+(* ---- validity of definitions (what the loader guarantees and the engine relies on; proofs/EngineNoErr.v
+        proves that this boolean implies the predicate the theorems assume).  Every asset store the harness
+        generates was accepted by the real loader, and [check] requires this boolean of it: the predicate is
+        therefore not stronger than what the loader accepts, on everything generated. ------------------------ *)
+
+Definition valid_router_b (rt : router) : bool :=
+  forallb (fun c => Nat.ltb (snd c) (length (rt_cats rt))) (rt_cases rt) &&
+  match rt_default rt with Some ci => Nat.ltb ci (length (rt_cats rt)) | None => true end &&
+  match rt_wait rt with
+  | Some {| w_timeout := Some (_, ci) |} => Nat.ltb ci (length (rt_cats rt))
+  | _ => true
+  end.
+
+Definition valid_node_b (f : flow) (n : node) : bool :=
+  forallb (fun e => match e_dest e with Some d => match get_node f d with Some _ => true | None => false end | None => true end) (n_exits n) &&
+  match n_router n with Some rt => valid_router_b rt | None => true end.
+
+Definition valid_assets_b (a : assets) : bool :=
+  forallb (fun f => forallb (valid_node_b f) (f_nodes f)) (a_flows a).
+
+
+Definition valid_cat_exits_b (a : assets) : bool :=
+  forallb (fun f => forallb (fun n => match n_router n with
+                                     | Some rt => forallb (fun c => match find_exit (n_exits n) (cat_exit c) with Some _ => true | None => false end) (rt_cats rt)
+                                     | None => true end) (f_nodes f)) (a_flows a).
+
+
 (* ---- histories ------------------------------------------------------------------------------------- *)
 
 Inductive op :=
@@ -116,9 +143,12 @@ Fixpoint run_ops (a : assets) (s : session) (ops : list op) : list (list N) :=
                         | OFault a' r => (a', s, r)
                         | OTamper r => (a, tamper s, r)
                         end in
-      match resume_session a s r timeout_text with
-      | Rejected code => ([1; code] ++ enc_session s) :: run_ops a s rest   (* the session is the caller's, as it was *)
-      | Resumed res =>
+      (* the state-passing form: after an engine error the history goes on with the session the method left
+         behind (proved to be the caller's session, proofs/EngineProofs.v), and that session and the (empty)
+         sprint are compared with the real ones *)
+      match resume_m a s r timeout_text with
+      | (x', OErr code) => ([1; code] ++ enc_session (session_ x') ++ enc_sprint (sprint_ x')) :: run_ops a (session_ x') rest
+      | (_, ORes res) =>
           enc_result_ res ::
           match res with
           | ROk x => run_ops a (session_ x) rest
@@ -149,7 +179,12 @@ Fixpoint streams_eqb (a b : list (list N)) : bool :=
   | _, _ => false
   end.
 
-Definition check (h : hcase) : bool := streams_eqb (run_history h) (hc_obs h).
+Definition op_assets_valid (o : op) : bool :=
+  match o with OFault a _ => valid_assets_b a && valid_cat_exits_b a | _ => true end.
+
+Definition check (h : hcase) : bool :=
+  valid_assets_b (hc_assets h) && valid_cat_exits_b (hc_assets h) && forallb op_assets_valid (hc_ops h)
+  && streams_eqb (run_history h) (hc_obs h).
 
 Fixpoint mismatches_from (i : N) (hs : list hcase) : list N :=
   match hs with
